@@ -159,12 +159,24 @@ func (e *explorer) expand(t *testing.T, runCfg config, frontier []int, depth int
 	n := len(frontier) * len(e.calls)
 	var capped atomic.Bool
 	var done atomic.Int64
+	// the wall budget is watched from outside the bubbles (inside, the clock is fake)
+	stopWatch := make(chan struct{})
+	go func() {
+		for {
+			select {
+			case <-stopWatch:
+				return
+			case <-time.After(100 * time.Millisecond):
+				if budget.Exceeded() {
+					capped.Store(true)
+					return
+				}
+			}
+		}
+	}()
+	defer close(stopWatch)
 	parallelRigs(t, runCfg, n, func(r *rig, i int) {
 		if capped.Load() {
-			return
-		}
-		if i%512 == 0 && budget.Exceeded() {
-			capped.Store(true)
 			return
 		}
 		ni := frontier[i/len(e.calls)]
@@ -196,7 +208,7 @@ func (e *explorer) expand(t *testing.T, runCfg config, frontier []int, depth int
 		e.nodes = append(e.nodes, node{pins: f.pins, key: k, parent: frontier[f.idx/len(e.calls)], via: e.calls[f.idx%len(e.calls)].String(), call: e.calls[f.idx%len(e.calls)], depth: depth + 1})
 		next = append(next, len(e.nodes)-1)
 	}
-	return next, !capped.Load()
+	return next, done.Load() == int64(n)
 }
 
 // bfs explores to the given depth: every call from every state of depth <
